@@ -475,6 +475,81 @@ func sectionProver() {
 	}
 }
 
+// the proof builder over trees that hold library cells: the kept cells of the proof, as tongo
+// parses and hashes them, are the original cells (same type, same hash), and the virtual root
+// hashes at level 0 to the original root hash
+func sectionProverExotic() {
+	n := R.N(120, 2500)
+	for i := 0; i < n; i++ {
+		rng := R.Rng("prover-exotic", i)
+		var mk func(d int) *cell.Cell
+		mk = func(d int) *cell.Cell {
+			c := cell.New(rng.Bits(rng.Intn(80)), false)
+			for k := 0; k < rng.Range(1, 3); k++ {
+				if d >= 3 || rng.Chance(1, 3) {
+					var h cell.Hash
+					copy(h[:], rng.Bytes(32))
+					c.Refs = append(c.Refs, cell.NewLibrary(h))
+				} else {
+					c.Refs = append(c.Refs, mk(d+1))
+				}
+			}
+			return c
+		}
+		root := mk(0)
+		ts, _, err := bridge.ToTongoParsed([]*cell.Cell{root}, rboc.Options{})
+		if err != nil || len(ts) != 1 {
+			R.HarnessError("deliver: %v", err)
+			return
+		}
+		wit := map[string]any{"tree": i}
+		var proof []byte
+		p := mon.Guard(func() {
+			var pr *tboc.MerkleProver
+			pr, err = tboc.NewMerkleProver(ts[0])
+			if err != nil {
+				return
+			}
+			cur := pr.Cursor()
+			c, o := cur, root
+			for d := 0; d < rng.Range(1, 3) && len(o.Refs) > 0; d++ {
+				j := rng.Intn(len(o.Refs))
+				c, o = c.Ref(j), o.Refs[j]
+			}
+			if o != root && !o.Exotic {
+				c.Prune()
+			}
+			proof, err = pr.CreateProof(cur)
+		})
+		if p != nil {
+			wit["panic"] = p.Value
+			R.Violation("panic@"+p.Site+"/MerkleProver(library leaves)", wit)
+			continue
+		}
+		if err != nil {
+			continue
+		}
+		rroots, _, _, rerr := rboc.Read(proof)
+		if rerr != nil || len(rroots) != 1 || len(rroots[0].Refs) != 1 {
+			wit["err"] = fmt.Sprint(rerr)
+			R.Violation("invalid-proof-boc@MerkleProver.CreateProof(library leaves)", wit)
+			continue
+		}
+		want := root.Hash()
+		if h0 := rroots[0].Refs[0].HashAt(0); h0 != want {
+			wit["virtual_root_hash"], wit["original_root_hash"] = mon.Hex(h0[:]), mon.Hex(want[:])
+			R.Violation("hash-mismatch@prover-output/virtual-root-vs-original", wit)
+			continue
+		}
+		cs, err := tboc.DeserializeBoc(proof)
+		if err != nil || len(cs) != 1 {
+			R.Violation("error@DeserializeBoc(proof)", wit)
+			continue
+		}
+		checkTree("prover-output-with-library-cells", cs[0], rroots[0], true, wit)
+	}
+}
+
 func sectionReal() {
 	files, err := realdata.Files(mon.RepoRoot(), true)
 	if err != nil {
@@ -558,6 +633,7 @@ func main() {
 	sectionSynthetic()
 	sectionPaths()
 	sectionProver()
+	sectionProverExotic()
 	sectionDepth()
 	sectionReal()
 	os.Exit(R.Finish())
